@@ -71,17 +71,32 @@ where
             if let (Some(AttributeValue::Addr(low_addr)), Some(AttributeValue::Udata(offset))) =
                 (low_pc, high_pc)
             {
+                // `low_pc` is the first address *of* the range: on a function
+                // boundary it belongs to the function that starts there, not
+                // to the one that ends there.
                 let new_low_pc =
-                    (self.convert_address)(low_addr, AddressSearchPreference::InclusiveFunctionEnd);
+                    (self.convert_address)(low_addr, AddressSearchPreference::ExclusiveFunctionEnd);
                 let new_high_pc = (self.convert_address)(
                     low_addr + offset,
                     AddressSearchPreference::InclusiveFunctionEnd,
                 );
+                if new_low_pc.is_none() {
+                    // The code this entry describes was removed: mark it dead
+                    // rather than leaving it pointing at whatever precedes it.
+                    debug_entry.set(
+                        constants::DW_AT_low_pc,
+                        write::AttributeValue::Address(write::Address::Constant(DEAD_CODE)),
+                    );
+                }
                 if let (
                     Some(write::Address::Constant(new_low_pc)),
                     Some(write::Address::Constant(new_high_pc)),
                 ) = (new_low_pc, new_high_pc)
                 {
+                    debug_entry.set(
+                        constants::DW_AT_low_pc,
+                        write::AttributeValue::Address(write::Address::Constant(new_low_pc)),
+                    );
                     debug_entry.set(
                         constants::DW_AT_high_pc,
                         write::AttributeValue::Udata(new_high_pc.saturating_sub(new_low_pc)),
